@@ -25,7 +25,6 @@ static const struct { const char *name; int ks; enc_fn e; dec_fn d; } AE[6] = {
     {"aead128", 16, tinyjambu_128_aead_encrypt, tinyjambu_128_aead_decrypt}, {"aead192", 24, tinyjambu_192_aead_encrypt, tinyjambu_192_aead_decrypt},
     {"aead256", 32, tinyjambu_256_aead_encrypt, tinyjambu_256_aead_decrypt}, {"siv128", 16, tinyjambu_128_siv_encrypt, tinyjambu_128_siv_decrypt},
     {"siv192", 24, tinyjambu_192_siv_encrypt, tinyjambu_192_siv_decrypt}, {"siv256", 32, tinyjambu_256_siv_encrypt, tinyjambu_256_siv_decrypt}};
-extern int tinyjambu_aead_check_tag(unsigned char *, size_t, const unsigned char *, const unsigned char *, size_t) __attribute__((weak));
 
 #define SECRET(p, n) do { if (n) VALGRIND_MAKE_MEM_UNDEFINED((p), (n)); } while (0)
 #define PUBLIC(p, n) do { if (n) VALGRIND_MAKE_MEM_DEFINED((p), (n)); } while (0)
@@ -129,20 +128,6 @@ int main(int argc, char **argv)
                     if ((rc == 0) != (t == 0)) { printf("I unexpected verdict rc=%d for %s\n", rc, g_case); }
                 }
             }
-    /* ---- the comparison primitive itself, every differing byte index, secret tags and plaintext */
-    if (tinyjambu_aead_check_tag && mine(&a, idx)) {
-        for (i = 0; i <= 8; ++i) {
-            uint8_t t1[8], t2[8], pt[40];
-            int rc;
-            fill_random(&r, t1, 8); memcpy(t2, t1, 8); fill_random(&r, pt, sizeof pt);
-            if (i < 8) t2[i] ^= 0x21;
-            shape("{\"h\":\"ct\",\"api\":\"check_tag\",\"differing_byte\":%d}", i < 8 ? i : -1);
-            SECRET(t1, 8); SECRET(pt, sizeof pt); n_secret_bytes += 48;
-            rc = tinyjambu_aead_check_tag(pt, sizeof pt, t1, t2, 8);
-            PUBLIC(&rc, sizeof rc); PUBLIC(pt, sizeof pt); PUBLIC(t1, 8);
-            ++n_calls;
-        }
-    }
     ++idx;
     /* ---- hash: secret message, public length and chunking */
     {
